@@ -124,16 +124,27 @@ func (p *Program) normalise() {
 	}
 	// a helper is absorbed when every mention of it in the module is an absorbed call
 	uses := map[*types.Func][]*ast.Ident{}
+	usedIn := map[*types.Func]map[*types.Func]bool{} // helper → the declared functions that mention it
 	for _, pk := range p.Pkgs {
 		for _, file := range pk.Syntax { // the source as written: clones made above are not mentions
-			ast.Inspect(file, func(n ast.Node) bool {
-				if id, ok := n.(*ast.Ident); ok {
-					if fn, ok := pk.TypesInfo.Uses[id].(*types.Func); ok && p.declOf[fn] != nil && !InBaseline(fn) {
-						uses[fn] = append(uses[fn], id)
-					}
+			for _, d := range file.Decls {
+				var encl *types.Func
+				if fd, ok := d.(*ast.FuncDecl); ok {
+					encl, _ = pk.TypesInfo.Defs[fd.Name].(*types.Func)
 				}
-				return true
-			})
+				ast.Inspect(d, func(n ast.Node) bool {
+					if id, ok := n.(*ast.Ident); ok {
+						if fn, ok := pk.TypesInfo.Uses[id].(*types.Func); ok && p.declOf[fn] != nil && !InBaseline(fn) {
+							uses[fn] = append(uses[fn], id)
+							if usedIn[fn] == nil {
+								usedIn[fn] = map[*types.Func]bool{}
+							}
+							usedIn[fn][encl] = true
+						}
+					}
+					return true
+				})
+			}
 		}
 	}
 	for fn, ids := range uses {
@@ -150,9 +161,48 @@ func (p *Program) normalise() {
 			p.absorbedFn[fn] = true
 		}
 	}
+	// the one baseline function a helper outside the baseline belongs to (through other such helpers), if there is exactly one
+	helperHost = map[*types.Func]*types.Func{}
+	for fn := range usedIn {
+		if fn.Exported() {
+			continue
+		}
+		hosts := map[*types.Func]bool{}
+		seen := map[*types.Func]bool{}
+		var walk func(h *types.Func, depth int)
+		walk = func(h *types.Func, depth int) {
+			if seen[h] || depth > 8 {
+				return
+			}
+			seen[h] = true
+			for e := range usedIn[h] {
+				if e != nil && !InBaseline(e) && p.declOf[e] != nil && !e.Exported() && len(usedIn[e]) > 0 {
+					walk(e, depth+1)
+				} else {
+					hosts[e] = true
+				}
+			}
+		}
+		walk(fn, 0)
+		if len(hosts) == 1 {
+			for h := range hosts {
+				if h != nil && InBaseline(h) {
+					helperHost[fn] = h
+				}
+			}
+		}
+	}
 	p.InlineStats = [2]int{in.Stats.Calls, in.Stats.Exprs}
 	p.Folded = in.Stats.Folded
 }
+
+// helperHost maps an unexported function outside the baseline that is mentioned by exactly one
+// function of the baseline (directly or through other such helpers) to that function: it is a
+// piece a maintainer split off that function. One configuration per process.
+var helperHost = map[*types.Func]*types.Func{}
+
+// HostOf returns the baseline function that fn was split off (see helperHost), or nil.
+func HostOf(fn *types.Func) *types.Func { return helperHost[fn] }
 
 // AbsorbedNames lists the absorbed helpers (sorted).
 func (p *Program) AbsorbedNames() []string {
